@@ -40,7 +40,8 @@ def unsafe_direction(impl, seq):
 def pace_oracle(case, impl):
     """Pacing oracle evaluated on the implementation's own output: two evaluations of one group entry at clock values
     less than minInterval apart ("more often than the interval"; exactly the interval apart is not more often -- the
-    model's strict '>' is then a disagreement without a failing input)."""
+    model's strict '>' is then a disagreement without a failing input; a clock that went backwards in between is no
+    frequency either)."""
     f = case.split()
     mi = int(f[1])
     ng = int(f[2])
@@ -53,7 +54,7 @@ def pace_oracle(case, impl):
             now = int(f[i + 1]); i += 2
             if k < len(outs) and outs[k].startswith("T:"):
                 for g in [x for x in outs[k][2:].split(",") if x.isdigit()]:
-                    if g in last and now - last[g] < mi * G.NS:
+                    if g in last and 0 <= now - last[g] < mi * G.NS:
                         return "group %s evaluated at %d and %d (minInterval %d s)" % (g, last[g], now, mi)
                     last[g] = now
         else:
@@ -110,7 +111,7 @@ def cfg_oracle(case, impl):
                 if g in seen and exp > 0:
                     return "group %s requested more than once in the iteration(s) at clock %d (shortest configured interval %d s)" % (g, now, exp)
                 seen.add(g)
-                if g in last and now - last[g] < exp * G.NS:
+                if g in last and 0 <= now - last[g] < exp * G.NS:
                     return ("group %s evaluated at %d and again at %d: %d ns apart, shortest configured interval %d s"
                             % (g, last[g], now, now - last[g], exp))
             if gate:
@@ -142,7 +143,7 @@ def cfg_oracle(case, impl):
             if "+" in o:
                 ids = _ids("+" + o.split("+", 1)[1], "+")
                 for g in ids:
-                    if g in last and ev[1] - last[g] < exp * G.NS:
+                    if g in last and 0 <= ev[1] - last[g] < exp * G.NS:
                         return ("group %s evaluated at %d and again at %d (during the list refresh), shortest configured interval %d s"
                                 % (g, last[g], ev[1], exp))
                     last[g] = ev[1]
@@ -326,6 +327,17 @@ def report_cfg(chk, cfgs, badmi):
     configuration; otherwise the correspondence that no longer holds, without a failing input."""
     if not cfgs and not badmi:
         return
+    if cfgs:
+        # scenarios are observed through short real-time windows (a tick: 8 ms + quiescence); a disagreement is re-run
+        # once with three times the windows before it counts (the first dozen are enough for the verdict)
+        cfgs = cfgs[:12]
+        chk.notes.append("%d configured-loop case(s) disagreed on the first run and were re-run with VERIF_GRACE_MULT=3" % len(cfgs))
+        impl2, model2, mism2 = chk.differential("evalloop", "evalloop", "TestVerifProbeEvalloop", [c for _, c, _, _ in cfgs],
+                                                name="evalloop_cfg_retry", project=seq_of,
+                                                extra_env={"VERIF_GRACE_MULT": "3"}, timeout=900)
+        cfgs = [(cfgs[j][0], c, a, m) for (j, c, a, m) in mism2]
+        if not cfgs and not badmi:
+            return
     reported = 0
     pending = []
     for (i, c, a, m) in cfgs:
